@@ -189,7 +189,7 @@ class Hub(object):
 class Menu(ciw.dists.Distribution):
     """sample() asks the explorer for an index into a finite menu and logs the sample."""
 
-    def __init__(self, kind, node, cls, values, budget=None, by_t=None, by_class=None):
+    def __init__(self, kind, node, cls, values, budget=None, by_t=None, by_class=None, script=None):
         self.kind = kind
         self.node = node
         self.cls = cls
@@ -197,6 +197,7 @@ class Menu(ciw.dists.Distribution):
         self.budget = budget
         self.by_t = by_t          # optional [(t_threshold, values)], time dependent menus
         self.by_class = by_class  # optional {customer_class: values}, state dependent menus
+        self.script = script      # optional scripted answers (twin runs): list by draw number, or {customer id: value}
         self.n = 0
         self.tag = "%s%s%s" % (kind, node, cls)
 
@@ -212,7 +213,12 @@ class Menu(ciw.dists.Distribution):
 
     def sample(self, t=None, ind=None):
         self.n += 1
-        if self.budget is not None and self.n > self.budget:
+        if self.script is not None:
+            if isinstance(self.script, dict):
+                v = self.script[str(ind.id_number)] if str(ind.id_number) in self.script else self.script[ind.id_number]
+            else:
+                v = self.script[self.n - 1] if self.n - 1 < len(self.script) else INF
+        elif self.budget is not None and self.n > self.budget:
             v = INF
         else:
             vals = self.values
@@ -556,14 +562,14 @@ def build_network(cfg):
             if m is None:
                 arr[cn].append(None)
             elif isinstance(m, dict):
-                arr[cn].append(Menu("arr", i + 1, cn, m["values"], budget=m.get("budget", K), by_t=m.get("by_t")))
+                arr[cn].append(Menu("arr", i + 1, cn, m.get("values", []), budget=m.get("budget", K), by_t=m.get("by_t"), script=m.get("script")))
             else:
                 arr[cn].append(Menu("arr", i + 1, cn, m, budget=K))
         srv[cn] = []
         for i in range(nn):
             m = c["srv"][i]
             if isinstance(m, dict):
-                srv[cn].append(Menu("srv", i + 1, cn, m["values"], by_t=m.get("by_t"), by_class=m.get("by_class")))
+                srv[cn].append(Menu("srv", i + 1, cn, m.get("values", []), by_t=m.get("by_t"), by_class=m.get("by_class"), script=m.get("script")))
             else:
                 srv[cn].append(Menu("srv", i + 1, cn, m))
         if any_bat:
